@@ -286,7 +286,7 @@ def run(seed, tier, prims):
         shutil.rmtree(base)
     os.makedirs(base)
     t0 = time.time()
-    ndefs = 40 if tier == "quick" else 300
+    ndefs = 48 if tier == "quick" else 300
     info = {"errors": [], "builds": {}, "cached": False, "computed_at": time.strftime("%Y-%m-%dT%H:%M:%S"), "ndefs": ndefs}
     lab, err = make_lab(seed, ndefs, f"{tier}-{seed}")
     if lab is None:
